@@ -49,7 +49,9 @@ func checkC04(run *Run, res *Result) {
 		return st[k]
 	}
 	cfg := &run.Cfg
-	lastInfo := map[int][2]int{}       // member -> last published membership
+	lastInfo := map[int][2]int{} // member -> last published membership
+	prevHist := map[vbKey]map[uint64]bool{}
+	stopT := map[int]int64{}
 	loaded := map[int]bool{}           // member -> the session's offsets have been loaded (first stream request seen)
 	assigned := map[int]map[int]bool{} // member -> vBuckets of the range the current session was opened on
 	open := map[int]bool{}             // member -> between AfterStreamStart and BeforeStreamStop
@@ -72,14 +74,16 @@ func checkC04(run *Run, res *Result) {
 						assigned[e.M][vb] = true
 					}
 				}
-				for kk := range st {
+				for kk, v := range st {
 					if kk.m == e.M {
+						prevHist[kk] = v.history // a save dumped in the old session may still be on its way to the store
 						delete(st, kk)
 					}
 				}
 				loaded[e.M] = false
 			case "BeforeStreamStop":
 				open[e.M] = false
+				stopT[e.M] = e.T
 			}
 		case journal.KPublish:
 			lastInfo[e.M] = [2]int{int(e.I), int(e.U)}
@@ -245,6 +249,12 @@ func checkC04(run *Run, res *Result) {
 			}
 			v := st[k]
 			if v == nil || !v.havePos || !open[e.M] {
+				continue
+			}
+			if (e.Off.Seq > v.pos || !v.history[e.Off.Seq]) && prevHist[k][e.Off.Seq] && e.T-stopT[e.M] <= cfg.CkptTimeout+int64(1e9) {
+				// written by a save that took its dump in the previous session (before a rebalance closed the stream)
+				// and was still in flight: the position was tracked then
+				res.probe("save-in-flight-across-sessions")
 				continue
 			}
 			if e.Off.Seq > v.pos || !v.history[e.Off.Seq] {
